@@ -85,8 +85,8 @@ def driver_source(sch, sched=False):
         src.append("}")
     if sched:
         src.append("static void send_cb(const CanFrame *f){ printf(\" [\"); pframe(f); printf(\"]\"); }")
-    src.append("int main(void){ static char line[1 << 16]; char *tok[64];")
-    src.append("  while (fgets(line, sizeof line, stdin)) { int n = 0; for (char *p = strtok(line, \" \\n\"); p && n < 64; p = strtok(NULL, \" \\n\")) tok[n++] = p;")
+    src.append("int main(void){ static char line[1 << 16]; char *tok[8192];")
+    src.append("  while (fgets(line, sizeof line, stdin)) { int n = 0; for (char *p = strtok(line, \" \\n\"); p && n < 8192; p = strtok(NULL, \" \\n\")) tok[n++] = p;")
     src.append("    if (n < 2) continue;")
     for im, st in msgs:
         n = im["name"]
